@@ -90,6 +90,26 @@ func (g *GoChannel) Publish(topic string, messages ...*message.Message) error {
 		messagesToPublish[i] = msg.Copy()
 	}
 
+	for i := range messagesToPublish {
+		msg := messagesToPublish[i]
+
+		ackedBySubscribers, err := g.persistAndSend(topic, msg)
+		if err != nil {
+			return err
+		}
+
+		if g.config.BlockPublishUntilSubscriberAck {
+			// no lock is held while waiting: subscribers may publish, subscribe or unsubscribe meanwhile
+			g.waitForAckFromSubscribers(msg, ackedBySubscribers)
+		}
+	}
+
+	return nil
+}
+
+// persistAndSend stores the message (when persistent) and hands it over to the current subscribers of the topic.
+// Both happen under the same locks as Subscribe uses, so a new subscriber gets every message exactly once.
+func (g *GoChannel) persistAndSend(topic string, msg *message.Message) (<-chan struct{}, error) {
 	g.subscribersLock.RLock()
 	defer g.subscribersLock.RUnlock()
 
@@ -102,29 +122,16 @@ func (g *GoChannel) Publish(topic string, messages ...*message.Message) error {
 		if g.persistedMessages == nil {
 			// Close finished after the closed check at the top
 			g.persistedMessagesLock.Unlock()
-			return errors.New("Pub/Sub closed")
+			return nil, errors.New("Pub/Sub closed")
 		}
 		if _, ok := g.persistedMessages[topic]; !ok {
 			g.persistedMessages[topic] = make([]*message.Message, 0)
 		}
-		g.persistedMessages[topic] = append(g.persistedMessages[topic], messagesToPublish...)
+		g.persistedMessages[topic] = append(g.persistedMessages[topic], msg)
 		g.persistedMessagesLock.Unlock()
 	}
 
-	for i := range messagesToPublish {
-		msg := messagesToPublish[i]
-
-		ackedBySubscribers, err := g.sendMessage(topic, msg)
-		if err != nil {
-			return err
-		}
-
-		if g.config.BlockPublishUntilSubscriberAck {
-			g.waitForAckFromSubscribers(msg, ackedBySubscribers)
-		}
-	}
-
-	return nil
+	return g.sendMessage(topic, msg)
 }
 
 func (g *GoChannel) waitForAckFromSubscribers(msg *message.Message, ackedByConsumer <-chan struct{}) {
